@@ -479,11 +479,12 @@ PROPS["C18"] = {
              "remembered ids must not exceed the capacity; production capacity spot-checked. Non-trivial = an id set twice among >= 2 ids and "
              "more operations than capacity. c18_attribution: 2-6 concurrent sessions with 1-3 carriers each carrying generated client_ip "
              "values through the real server: the accepted connection's remote address must be the sanitised client_ip of one of that "
-             "session's own carriers (the first one's when a single carrier was used). c18_remoteip: the proxy's address extraction (see C13)."),
+             "session's own carriers (the first one's when a single carrier was used). c18_remoteip: the proxy's address extraction (see C13). c18_ringmap_concurrent: 1-6 goroutines calling Set (as carrier handlers do) and 1-6 calling Get (as new sessions do) on a map of capacity 1-64 with more ClientIDs than slots, so that slots are recycled all the time; every ClientID stores addresses of its own, disjoint set: a Get must return one of its own or nothing (never another session's address), and must not panic. Non-trivial = more ClientIDs than capacity."),
     "assumptions": ["with several carriers before the session is established the arrival order at the server is not observable: any of the session's own carriers' sanitised values is accepted"],
     "units": [
         U("c18_sanitise", "inpkg", "server/lib", "^TestVerifC18Sanitise$", (4000, 50000)),
         U("c18_ringmap", "inpkg", "server/lib", "^TestVerifC18RingMap$", (1500, 20000)),
+        U("c18_ringmap_concurrent", "inpkg", "server/lib", "^TestVerifC18RingMapConcurrent$", (150, 1500), shards=(2, 4)),
         U("c18_attribution", "ext", "c05", "^TestVerifC18Attribution$", (40, 600), shards=(4, 8), timeout=(400, 3000)),
         U("c18_remoteip", "inpkg", "proxy/lib", "^TestVerifC18RemoteIP$", (1500, 20000), shards=(4, 8)),
     ],
@@ -521,6 +522,7 @@ PROPS["C20"] = {
         R("c20_safelog", "ext", "c07", "^TestVerifC07Concurrent$", (100, 1000)),
         R("c20_adapters", "ext", "c17", "^TestVerifC17(Redial|Queue)$", (100, 1000)),
         R("c20_server", "ext", "c05", "^TestVerifC05Sessions$", (12, 150), shards=(3, 6)),
+        R("c20_ringmap", "inpkg", "server/lib", "^TestVerifC18RingMapConcurrent$", (60, 600)),
         R("c20_peers", "inpkg", "client/lib", "^TestVerifC15(Peers|Rendezvous)$", (40, 400)),
         R("c20_proxy", "inpkg", "proxy/lib", "^TestVerifC16Sessions$", (15, 150)),
         R("c20_eventlogger", "inpkg", "proxy/lib", "^TestVerifC20EventLogger$", (60, 600)),
